@@ -61,6 +61,23 @@ func checkProgram(t hx.TB, test string, m *am.Module) (ok bool, calls map[string
 	if yn, pn := lx.Print(naive); pn != nil || yn != y {
 		hx.Fail(t, test, "ll", c, "assigning AddrSpace after construction (the only way the API offers) without resetting the cached type by hand prints a different module (%v):\n%s", pn, llvmx.Diff(y, yn))
 	}
+	// (2c) one object in many places: the same program written by somebody who keeps types and constants in
+	// variables — equal literal types are one Go object, equal constants are one Go object, used as operand of
+	// several instructions, element of several aggregates, initialiser of several globals. The text must be the
+	// same, on the first print and on the second
+	var shared *ir.Module
+	var scalls map[string]int
+	if p := lx.Guard(func() { shared, scalls = emit.ModuleShared(m) }); p != nil {
+		hx.Fail(t, test, "ll", c, "a well-typed construction (types and constants kept in variables and used in several places) is rejected by a constructor (panic): %s", p)
+	}
+	for k := 0; k < 2; k++ {
+		if ys, ps := lx.Print(shared); ps != nil || ys != y {
+			hx.Fail(t, test, "ll", c, "the same program with equal types and constants held as one object each prints a different module (print %d, %v):\n%s", k+1, ps, llvmx.Diff(y, ys))
+		}
+	}
+	if n := scalls["shared constant object used again"]; n > 0 {
+		hx.HistN("constant_object_reached_from_another_place", n)
+	}
 	// (3) the library's parser accepts the text, re-prints it identically, structurally identical module
 	pm, err, pp := lx.Parse(y)
 	if pp != nil || err != nil {
